@@ -9,19 +9,32 @@ Open Scope string_scope.
 Definition ls_table := SeataV.Gen.LockSet.ls_table.
 Definition ls_brackets := SeataV.Gen.LockSet.ls_brackets.
 
+(* a listed finding counts only while it still reproduces on the regenerated tables: a listed
+   pair that no longer violates the discipline (or is no longer in the table) exempts nothing,
+   a listed function whose connection is now given back on every path exempts nothing; the
+   driver reports such entries as STALE-FINDING *)
+Definition ls_live : listing :=
+  filter (fun x => violatesb ls_table (fst (fst x)) (snd (fst x)) (snd x)) ls_listed.
+Definition ls_stale : listing :=
+  filter (fun x => negb (violatesb ls_table (fst (fst x)) (snd (fst x)) (snd x))) ls_listed.
+Definition ls_leak_live : list string :=
+  filter (fun f => existsb (fun r => (fst (fst r) =? f) && negb (snd r)) ls_brackets) ls_leak_listed.
+Definition ls_leak_stale : list string :=
+  filter (fun f => negb (existsb (fun r => (fst (fst r) =? f) && negb (snd r)) ls_brackets)) ls_leak_listed.
+
 Lemma table_wf : wf_table ls_required ls_table = true.
 Proof. vm_compute. reflexivity. Qed.
 
-Lemma table_check : check ls_listed ls_table = true.
+Lemma table_check : check ls_live ls_table = true.
 Proof. vm_compute. reflexivity. Qed.
 
-Lemma table_listed_violate : all_listed_violate ls_listed ls_table = true.
+Lemma table_listed_violate : all_listed_violate ls_live ls_table = true.
 Proof. vm_compute. reflexivity. Qed.
 
 Theorem lockset_at_table :
   forall a1 a2, In a1 ls_table -> In a2 ls_table -> conflicting a1 a2 ->
-  ~ exempt ls_listed a1 a2 -> protected a1 a2.
-Proof. exact (check_sound ls_listed ls_table table_check). Qed.
+  ~ exempt ls_live a1 a2 -> protected a1 a2.
+Proof. exact (check_sound ls_live ls_table table_check). Qed.
 
 Theorem table_wf_facts :
   (forall a, In a ls_table -> forall w, a_kind a <> Unknown w)
@@ -30,20 +43,20 @@ Theorem table_wf_facts :
 Proof. exact (wf_table_sound ls_required ls_table table_wf). Qed.
 
 Theorem listed_findings_refuted :
-  forall v f1 f2, In (v, f1, f2) ls_listed -> violates ls_table v f1 f2.
-Proof. exact (all_listed_violate_sound ls_listed ls_table table_listed_violate). Qed.
+  forall v f1 f2, In (v, f1, f2) ls_live -> violates ls_table v f1 f2.
+Proof. exact (all_listed_violate_sound ls_live ls_table table_listed_violate). Qed.
 
 (* every exemption is used: no pair of the listing is outside the table's failing pairs *)
 Definition conflicting_pairs_count : nat :=
-  length (flat_map (fun a1 => filter (fun a2 => conflictingb a1 a2 && negb (exemptb ls_listed a1 a2)) ls_table) ls_table).
+  length (flat_map (fun a1 => filter (fun a2 => conflictingb a1 a2 && negb (exemptb ls_live a1 a2)) ls_table) ls_table).
 
 Lemma table_nonvacuous : Nat.ltb 0 conflicting_pairs_count = true.
 Proof. vm_compute. reflexivity. Qed.
 
 Theorem lockset_nonvacuous :
-  exists a1 a2, In a1 ls_table /\ In a2 ls_table /\ conflicting a1 a2 /\ ~ exempt ls_listed a1 a2.
+  exists a1 a2, In a1 ls_table /\ In a2 ls_table /\ conflicting a1 a2 /\ ~ exempt ls_live a1 a2.
 Proof.
-  assert (H : existsb (fun a1 => existsb (fun a2 => conflictingb a1 a2 && negb (exemptb ls_listed a1 a2)) ls_table) ls_table = true)
+  assert (H : existsb (fun a1 => existsb (fun a2 => conflictingb a1 a2 && negb (exemptb ls_live a1 a2)) ls_table) ls_table = true)
     by (vm_compute; reflexivity).
   apply existsb_exists in H. destruct H as [a1 [H1 H]]. apply existsb_exists in H. destruct H as [a2 [H2 H]].
   apply andb_true_iff in H. destruct H as [Hc He]. apply negb_true_iff in He.
@@ -57,14 +70,14 @@ Qed.
 
 (* connection brackets *)
 Definition brackets_ok : bool :=
-  forallb (fun r => snd r || existsb (String.eqb (fst (fst r))) ls_leak_listed) ls_brackets
+  forallb (fun r => snd r || existsb (String.eqb (fst (fst r))) ls_leak_live) ls_brackets
   && negb (Nat.eqb (length ls_brackets) 0).
 
 Lemma brackets_check : brackets_ok = true.
 Proof. vm_compute. reflexivity. Qed.
 
 Theorem brackets_at_table :
-  forall f v c, In (f, v, c) ls_brackets -> ~ In f ls_leak_listed -> c = true.
+  forall f v c, In (f, v, c) ls_brackets -> ~ In f ls_leak_live -> c = true.
 Proof.
   intros f v c Hin Hn. pose proof brackets_check as H. unfold brackets_ok in H.
   apply andb_true_iff in H. destruct H as [H _]. rewrite forallb_forall in H.
